@@ -6,6 +6,9 @@ HERE = os.path.dirname(os.path.dirname(os.path.abspath(__file__)))
 TECH = "deterministic simulation with fault injection: seeded search over operation/fault histories against a reference model, ddmin-minimised replay files"
 
 CLAIMED = {
+ "C15": dict(section="5.7", level="exploration",
+   text="PYTHONHASHSEED is treated as the controlled nondeterminism source. Seeded histories of label operations (with_labels in original relative order, without_labels, get_label, add_label with new and existing names, remove_label legal and illegal, labels, copy, chained selections on results) on labelled graphs with 2-6 overlapping ASCII and non-ASCII labels, plus calls of all 33 index-based labellers (arrays, point clouds, labelled graphs, through a landmark manager; right and wrong sizes; 2D/3D) are executed under PYTHONHASHSEED=0 against a reference label model: returned points are exactly the points under the requested labels in original order, edges are the induced edges, remaining labels are restricted and in original order, every point carries a label after every operation, illegal removal raises, receivers and inputs are never modified; labellers are pure re-indexings (distinct input points), label every output point, commute with a similarity of the input, reject wrong sizes with LabellingError. The same histories are then re-executed in fresh interpreters under further hash seeds (quick: 3, thorough: 15) and the per-history outcome logs (label order, points, masks, sorted edges) must be identical; a difference is minimised with two live interpreters and reported with both hash seeds in the replay file. Sampling, not proof.",
+   note="Trusted: CPython's hash randomisation as the only run-to-run variation; with_labels is only called with labels in their original relative order; the two bounding-box labellers are outside the clause; points are pairwise distinct so indices can be recovered by equality."),
  "C11": dict(section="5.6", level="exploration",
    text="A history is one way of cutting a seeded sample stream into an initial batch plus increments. For PCAVectorModel and PointCloud-backed PCAModel (centred/uncentred, first batch below and above d, forgetting factor 1) and for GMRFVectorModel / GMRFModel with incremental=True (edgeless, chain, cycle, random undirected, tree and directed graphs without antiparallel pairs; both edge modes; sparse/dense; both bias values) the incrementally updated model is compared after EVERY increment with the batch model built from the concatenated prefix: sample count, mean, eigenvalues (top batch-rank; surplus must vanish), principal subspaces (projector onto the top-j components at every clear spectral gap), component bookkeeping; GMRF mean and dense view of the precision. The batch PCA oracle is cross-checked against the harness' own SVD. Increment arguments must not be modified and a non-incremental GMRF must refuse. Random compositions plus ALL compositions of n for small n (quick: n<=6, thorough: n<=8) as an exhaustively enumerated sub-space. Sampling, not proof.",
    note="Trusted: the batch constructors as oracle (as the property states), NumPy SVD for the cross-check. No trimming between increments, no exactly-zero data mean, >= 2 features per vertex and enough samples in the first GMRF batch for invertible edge covariances."),
